@@ -216,69 +216,78 @@ def primElemBody (info : FieldInfo) (obj : GoVal) (ety : Option TfTy) : ElemBody
   | .panic w => .panic w
   | .stuck w => .stuck w
 
+/-- `c, ok := tf.Attrs[name].(types.List)`; not ok: a fresh null list of `n` nil elements; ok: re-used, re-allocated
+when `c.Elems == nil || len(obj.F) != len(c.Elems)`. Result: (Null, Elems, ElemType). -/
+def reuseList (cur : Option TfVal) (n : Nat) (ety : Option TfTy) : Bool × List TfVal × Option TfTy :=
+  match cur with
+  | some (.list _ nl (some es) et) => (nl, if es.length != n then List.replicate n .nilv else es, et)
+  | some (.list _ nl none et) => (nl, List.replicate n .nilv, et)
+  | _ => (true, List.replicate n .nilv, ety)
+
+/-- `c, ok := tf.Attrs[name].(types.Map)`; a re-used map is always rebuilt -/
+def reuseMap (cur : Option TfVal) (ety : Option TfTy) : Bool × List (String × TfVal) × Option TfTy :=
+  match cur with
+  | some (.map _ nl _ et) => (nl, [], et)
+  | _ => (true, [], ety)
+
+/-- `o := o.ElemType.(types.ObjectType)`: a single-value assertion (panics on failure) -/
+def elemObjTy (isObj : Bool) (ety : Option TfTy) : Outcome (Option (List (String × TfTy))) :=
+  if isObj then
+    match ety with
+    | some (.obj as) => .ok as
+    | _ => .panic "assertion"
+  else .ok none
+
+/-- is `tf.Attrs[name]` of the element's value type? (then the element would alias it; not modelled) -/
+def curIsElemKind (info : FieldInfo) (cur : Option TfVal) : Bool :=
+  match cur with
+  | some c => c.vkind == vkindOf info.tf.elemValueType
+  | none => false
+
+/-- the body of the element loop of a list / map field -/
+def elemBodyOf (rec : ToRec) (info : FieldInfo) (msg : Option MsgInfo) (subEmpty : Bool) (obj0 : GoVal)
+    (ety : Option TfTy) (oty : Option (List (String × TfTy))) : ElemBody :=
+  if info.kind == .objectList || info.kind == .objectMap then
+    fun a diags hooks => objBody rec info msg subEmpty none oty (.ok a) diags hooks
+  else primElemBody info obj0 ety
+
 /-- `genListOrMap` after the attribute type has been asserted to a list / map type with element type `ety`;
 `src` is the value of `obj.F`. -/
 def listOrMapBody (rec : ToRec) (info : FieldInfo) (msg : Option MsgInfo) (subEmpty : Bool) (obj0 : GoVal)
     (cur : Option TfVal) (ety : Option TfTy) (src : GoVal) (st : ToSt) : Outcome ToSt :=
   let isObj := info.kind == .objectList || info.kind == .objectMap
-  -- o := o.ElemType.(types.ObjectType): single-value assertion
-  let elemObjTy : Outcome (Option (List (String × TfTy))) :=
-    if isObj then
-      match ety with
-      | some (.obj as) => .ok as
-      | _ => .panic "assertion"
-    else .ok none
-  let curIsElemKind : Bool :=
-    match cur with
-    | some c => c.vkind == vkindOf info.tf.elemValueType
-    | none => false
-  let body (oty : Option (List (String × TfTy))) : ElemBody :=
-    if isObj then fun a diags hooks => objBody rec info msg subEmpty none oty (.ok a) diags hooks
-    else primElemBody info obj0 ety
   if info.isRepeated then
     let srcElems : Option (List GoVal) := match src with | .slice o => o | _ => none
-    let n := (srcElems.getD []).length
-    -- c, ok := tf.Attrs[name].(types.List)
-    -- re-used: `if c.Elems == nil || len(obj.F) != len(c.Elems) { c.Elems = make(…, len(obj.F)) }`
-    let (cnull, celems, cety) : Bool × List TfVal × Option TfTy :=
-      match cur with
-      | some (.list _ nl (some es) et) => (nl, if es.length != n then List.replicate n .nilv else es, et)
-      | some (.list _ nl none et) => (nl, List.replicate n .nilv, et)
-      | _ => (true, List.replicate n .nilv, ety)
+    let c := reuseList cur (srcElems.getD []).length ety
     match srcElems with
-    | none => .ok (st.set info.nameSnake (.list false cnull (some celems) cety))
+    | none => .ok (st.set info.nameSnake (.list false c.1 (some c.2.1) c.2.2))
     | some elems =>
-      match elemObjTy with
+      match elemObjTy isObj ety with
       | .panic w => .panic w
       | .stuck w => .stuck w
       | .ok oty =>
-        let celems := if elems.length != celems.length then List.replicate elems.length TfVal.nilv else celems
-        if curIsElemKind then .stuck "element aliases the enclosing attribute (not modelled)" else
-        match copyToElemsList (body oty) elems 0 celems st.diags st.hooks with
+        if curIsElemKind info cur then .stuck "element aliases the enclosing attribute (not modelled)" else
+        match copyToElemsList (elemBodyOf rec info msg subEmpty obj0 ety oty) elems 0 c.2.1 st.diags st.hooks with
         | .ok (es, ds, hs) =>
-          let cnull := if elems.length > 0 then false else cnull
-          .ok { attrs := setKey info.nameSnake (.list false cnull (some es) cety) st.attrs, diags := ds, hooks := hs }
+          .ok { attrs := setKey info.nameSnake (.list false (if elems.length > 0 then false else c.1) (some es) c.2.2) st.attrs,
+                diags := ds, hooks := hs }
         | .panic w => .panic w
         | .stuck w => .stuck w
   else
     let srcElems : Option (List (String × GoVal)) := match src with | .map o => o | _ => none
-    -- re-used: `c.Elems = make(map[string]attr.Value, len(obj.F))` (always rebuilt)
-    let (cnull, celems, cety) : Bool × List (String × TfVal) × Option TfTy :=
-      match cur with
-      | some (.map _ nl _ et) => (nl, [], et)
-      | _ => (true, [], ety)
+    let c := reuseMap cur ety
     match srcElems with
-    | none => .ok (st.set info.nameSnake (.map false cnull (some celems) cety))
+    | none => .ok (st.set info.nameSnake (.map false c.1 (some c.2.1) c.2.2))
     | some elems =>
-      match elemObjTy with
+      match elemObjTy isObj ety with
       | .panic w => .panic w
       | .stuck w => .stuck w
       | .ok oty =>
-        if curIsElemKind then .stuck "element aliases the enclosing attribute (not modelled)" else
-        match copyToElemsMap (body oty) elems celems st.diags st.hooks with
+        if curIsElemKind info cur then .stuck "element aliases the enclosing attribute (not modelled)" else
+        match copyToElemsMap (elemBodyOf rec info msg subEmpty obj0 ety oty) elems c.2.1 st.diags st.hooks with
         | .ok (es, ds, hs) =>
-          let cnull := if elems.length > 0 then false else cnull
-          .ok { attrs := setKey info.nameSnake (.map false cnull (some es) cety) st.attrs, diags := ds, hooks := hs }
+          .ok { attrs := setKey info.nameSnake (.map false (if elems.length > 0 then false else c.1) (some es) c.2.2) st.attrs,
+                diags := ds, hooks := hs }
         | .panic w => .panic w
         | .stuck w => .stuck w
 
